@@ -133,6 +133,10 @@ func main() {
 			fmt.Fprintln(os.Stderr, err)
 			os.Exit(2)
 		}
+		if *describe == "lextable" {
+			dumpLexTable(ctx)
+			return
+		}
 		dumpDescribe(ctx, *describe)
 		return
 	}
